@@ -113,10 +113,12 @@ def run(chk):
         bad = None
         n = 0
         for a in cards:
-            for b in cards:
+            for b0 in cards:
+                # the right operand is a DISTINCT object (an equal card held in another object): identity must not stand in for equality
+                b = DV(b0.cls, dict(b0.fields))
                 n += 1
                 res = try_fold('C15.R3', q_d, lambda: f.call_method(a, dn, b))
-                want = op(idx[a][1], idx[b][1]) if idx[a][0] == idx[b][0] == 'ok' else None
+                want = op(idx[a][1], idx[b0][1]) if idx[a][0] == idx[b0][0] == 'ok' else None
                 if res != ('ok', want):
                     bad = bad or (a, b, res, want)
         chk.evals(n)
